@@ -71,17 +71,36 @@ def gen_mapping(rng):
         for _ in range(rng.randrange(1, 4)):
             out.setdefault(gen_name(rng, dpool), tables())
         return out
+    def with_empties(d, make_empty_name):
+        """declared containers without content, at random positions (also first): they declare nothing that could be listed,
+        but they must not disturb how the rest of the mapping is read"""
+        if rng.random() < 0.35:
+            items = list(d.items())
+            for k in range(rng.randrange(1, 3)):
+                items.insert(rng.choice([0, 0, len(items)]) if items else 0, (make_empty_name(k), {}))
+            return dict(items)
+        return d
     if depth == 2:
         m = tables()
-        canon = [("def", [("", [(t, list(c.items())) for t, c in m.items()])])]
+        if rng.random() < 0.3:
+            m = with_empties(m, lambda k: "emptyt%d" % k)
     elif depth == 3:
         m = dbs()
-        canon = [("def", [(d, [(t, list(c.items())) for t, c in ts.items()]) for d, ts in m.items()])]
+        for d in list(m):
+            m[d] = with_empties(m[d], lambda k: "emptyt%d" % k)
+        m = with_empties(m, lambda k: "emptydb%d" % k)
     else:
         m = {"def": dbs()}
         if rng.random() < 0.6:
             m["cat2"] = dbs()
-        canon = [(cname, [(d, [(t, list(c.items())) for t, c in ts.items()]) for d, ts in ds.items()]) for cname, ds in m.items()]
+        for c in list(m):
+            m[c] = with_empties(m[c], lambda k: "emptydb%d" % k)
+        if rng.random() < 0.3:
+            # a catalog that holds only table-less databases, possibly in front of the populated ones
+            items = list(m.items())
+            items.insert(rng.choice([0, len(items)]), ("staging", {"scratch": {}, "tmp": {}}))
+            m = dict(items)
+    canon = canon_of(depth, m)
     return depth, m, canon
 
 
@@ -104,6 +123,8 @@ def mutate(rng, depth, m, k):
         tgt["nt%d" % k] = {"nc%d" % k: "TEXT", "nd": "INT"}
     else:
         tgt = top if depth == 2 else top[rng.choice(list(top))]
+        if not tgt:
+            tgt["nt%d" % k] = {}
         t = rng.choice(list(tgt))
         tgt[t]["nc%d" % k] = "DATE"
     return kind
